@@ -177,3 +177,159 @@ def decide(lane_term, k, base, eb, fn, result_bits):
             return "REFUTED", {"lane_bits": hex(v), "got": hex(got), "expected": hex(want & M), "function": fn}
         n += 1
     return "HOLDS", n
+
+
+# ---------------------------------------------------------------------------
+# General segment partition (fallback when atoms are not aligned with the IEEE fields, e.g. 64-bit
+# compares assembled from 32-bit halves).
+#
+# Fragment: the lane's bits occur only as single raw bits, or inside atoms  icmp pred (X, C)  /
+# icmp pred ((X + K) mod 2^w, C)  with X = zero padding ++ lane[lo,hi) ++ zero padding and C, K constants.
+# Cut the lane into elementary segments at every atom boundary (and at the sign / exponent / mantissa
+# boundaries the reference classification uses, and below the top bit of signed atoms).  An atom compares
+# lexicographically, so its value is a function of, per covered segment, whether the segment is below,
+# equal to or above the matching piece of each constant.  Representatives per segment: every piece (and
+# its neighbours) and one value inside every gap between consecutive pieces; segments of <= 6 bits are
+# enumerated.  The product of the representatives hits every realisable combination of trichotomies, so
+# evaluating both closed forms on it is exhaustive for this fragment.
+
+def _atom_shape(g, k, base, eb):
+    """g = pad ++ lane[lo,hi) ++ pad  ->  (lo, hi, lowpad) else raise"""
+    parts = list(g[2:]) if g[0] == "concat" else [g]
+    lowpad = 0
+    while parts and parts[0][0] == "const" and parts[0][2] == 0:
+        lowpad += parts[0][1]
+        parts = parts[1:]
+    while parts and parts[-1][0] == "const" and parts[-1][2] == 0:
+        parts = parts[:-1]
+    if len(parts) != 1:
+        raise NotInFragment("operand %s" % T.show(g, 3))
+    sl = _is_x_slice(parts[0], k, base, eb)
+    if sl is None:
+        raise NotInFragment("operand %s" % T.show(g, 3))
+    return sl[0], sl[1], lowpad
+
+
+def _collect_general(t, k, base, eb, atoms, rawbits, seen):
+    if id(t) in seen:
+        return
+    seen.add(id(t))
+    op = t[0]
+    if op in ("const", "undef"):
+        return
+    if op == "arg":
+        if t[2] == k and not (t[3] + t[1] <= base or t[3] >= base + eb):
+            sl = _is_x_slice(t, k, base, eb)
+            if sl is not None and sl[1] - sl[0] == 1:
+                rawbits.add(sl[0])
+                return
+            raise NotInFragment("lane bits used outside a comparison atom: %s" % T.show(t, 2))
+        return
+    if op == "icmp":
+        pred, a, b = t[2], t[3], t[4]
+        for x, y in ((a, b), (b, a)):
+            if y[0] != "const":
+                continue
+            signed = pred in ("slt", "sle", "sgt", "sge")
+            if x[0] == "add":
+                cs = [z for z in x[2:] if z[0] == "const"]
+                rest = [z for z in x[2:] if z[0] != "const"]
+                if len(cs) == 1 and len(rest) == 1:
+                    lo, hi, pad = _atom_shape(rest[0], k, base, eb)
+                    Mw = (1 << x[1]) - 1
+                    kk = cs[0][2]
+                    S = (1 << (x[1] - 1)) if signed else 0
+                    cc = [(-kk) & Mw, (y[2] - kk) & Mw, (y[2] - kk + 1) & Mw, (y[2] - kk - 1) & Mw,
+                          (S - kk) & Mw, (S - kk - 1) & Mw]
+                    atoms.append((lo, hi, pad, cc, False))
+                    return
+                raise NotInFragment("arithmetic inside a comparison")
+            lo, hi, pad = _atom_shape(x, k, base, eb)
+            atoms.append((lo, hi, pad, [y[2]], signed and pad + (hi - lo) == x[1]))
+            return
+        raise NotInFragment("comparison of two non-constant operands")
+    if op in ("not", "and", "or", "xor", "select", "rep", "concat", "slice", "popsum"):
+        for y in t[2:]:
+            if isinstance(y, tuple):
+                _collect_general(y, k, base, eb, atoms, rawbits, seen)
+        return
+    raise NotInFragment("operator %s" % op)
+
+
+def decide_general(lane_term, k, base, eb, fn, result_bits, max_cells=400000):
+    import itertools
+    mb, xb = fields(eb)
+    atoms, rawbits = [], set()
+    try:
+        _collect_general(lane_term, k, base, eb, atoms, rawbits, set())
+    except NotInFragment as e:
+        return "UNDECIDED", "outside the comparison-atom fragment: %s" % e
+    bounds = {0, mb, eb - 1, eb}
+    for lo, hi, pad, cs, signed in atoms:
+        bounds.update((lo, hi))
+        if signed and hi - lo > 1:
+            bounds.add(hi - 1)
+    for p in rawbits:
+        bounds.update((p, p + 1))
+    bl = sorted(bounds)
+    segs = list(zip(bl[:-1], bl[1:]))
+    reps = []
+    for s0, s1 in segs:
+        w = s1 - s0
+        SM = (1 << w) - 1
+        if w <= 6:
+            reps.append(list(range(1 << w)))
+            continue
+        cuts = {0, 1, SM, SM - 1, 1 << (w - 1), (1 << (w - 1)) - 1}
+        for lo, hi, pad, cs, signed in atoms:
+            if lo < s1 and s0 < hi:
+                for c in cs:
+                    for c2 in ((c >> pad), (c >> pad) + (1 if pad and c & ((1 << pad) - 1) else 0)):
+                        if c2 >> (hi - lo):
+                            # constant above the slice's range: every slice value is below it
+                            continue
+                        piece = (c2 >> (s0 - lo)) & SM
+                        cuts.update(((piece - 1) & SM, piece, (piece + 1) & SM))
+        cl = sorted(cuts)
+        vals = set(cl)
+        for a_, b_ in zip(cl[:-1], cl[1:]):
+            if b_ - a_ > 1:
+                vals.add((a_ + b_) // 2)
+        reps.append(sorted(vals))
+    cells = 1
+    for r in reps:
+        cells *= len(r)
+    if cells > max_cells:
+        return "UNDECIDED", "segment partition too large (%d cells over %d segments)" % (cells, len(segs))
+    n = 0
+    M = (1 << result_bits) - 1
+    for combo in itertools.product(*reps):
+        v = 0
+        for (s0, s1), x in zip(segs, combo):
+            v |= x << s0
+        env = {"args": [0] * (k + 1)}
+        env["args"][k] = v << base
+        try:
+            got = T.ev(lane_term, env)
+        except T.Uneval as e:
+            return "UNDECIDED", "closed form not evaluable: %s" % e
+        want = libm_class(v, eb)[fn]
+        if result_bits > 1 and fn != "fpclassify":
+            want = M if want else 0
+        if got != (want & M):
+            return "REFUTED", {"lane_bits": hex(v), "got": hex(got), "expected": hex(want & M), "function": fn}
+        n += 1
+    return "HOLDS", n
+
+
+_decide_aligned = decide
+
+
+def decide(lane_term, k, base, eb, fn, result_bits):
+    v, info = _decide_aligned(lane_term, k, base, eb, fn, result_bits)
+    if v == "UNDECIDED" and isinstance(info, str) and info.startswith("outside the field-aligned fragment"):
+        v2, info2 = decide_general(lane_term, k, base, eb, fn, result_bits)
+        if v2 != "UNDECIDED":
+            return v2, info2
+        return v, "%s; %s" % (info, info2)
+    return v, info
